@@ -43,7 +43,7 @@ for d in sorted(os.listdir(SEEDED)):
     t = sh("cd %s && cargo test --workspace --no-fail-fast --offline 2>&1 | grep -E '^test result'" % REPO)
     passed = sum(int(x) for x in re.findall(r"(\d+) passed", t.stdout)); failed = sum(int(x) for x in re.findall(r"(\d+) failed", t.stdout))
     res["test_suite"] = {"passed": passed, "failed_other_than_program_tests": failed - 1}
-    for cid in [prop] + EXTRA.get(prop, []):
+    for cid in [prop] + ([] if os.environ.get("MATRIX_NO_EXTRA") else EXTRA.get(prop, [])):
         t0 = time.time()
         c = sh("cd /verif && VERIF_REPO=%s timeout 3000 python3-vt run.py %s --tier quick" % (REPO, cid))
         v = [l for l in c.stdout.split("\n") if l.startswith("VIOLATION")]
